@@ -205,7 +205,7 @@ def run_battery(pid, tier, seed, obligation="", ignore=""):
     return dict(status="undecided", detail=("battery crashed: " + (p.stderr.strip().splitlines() or ["?"])[-1])[:300])
 
 
-BOUNDED = {"C01", "C02", "C08", "C09", "C10", "C12", "C13", "C15", "C17"}
+BOUNDED = {"C01", "C02", "C03", "C08", "C09", "C10", "C12", "C13", "C15", "C16", "C17"}
 
 
 def run_bounded(pid, tier, seed):
@@ -271,6 +271,10 @@ def run_side_checks(pid, tier, seed):
 def replay(pid, obligation, rec, seed, tier):
     """run the scenario battery of the property on the real code (CPython, /venv) under run-time
     monitors; returns a witness dict or None"""
+    if pid in BOUNDED:
+        res = run_bounded(pid, tier, seed)
+        if res["status"] == "violation":
+            return res["witness"]
     if pid not in BATTERY:
         return None
     for k in range(2):
